@@ -7,6 +7,7 @@ the TRUSTED part (pandas behaviour modelled by its specification, checked by the
 
   data[col]                                   -> `column`
   data.groupby(names).apply(fn, ...)          -> `groupbyApply`  (one entry per observed tuple, sorted)
+  data.groupby(names, dropna=b).apply(...)    -> `groupbyApplyNa b` (rows with a missing key component dropped when b)
   np.unique(values)                           -> `npUnique`      (sorted distinct values)
   pd.MultiIndex.from_product(list_of_levels)  -> `fromProduct`   (first factor slowest)
   temp.reindex(index=idx)                     -> `Frame.reindex` (missing labels get NaN)
@@ -42,6 +43,24 @@ def fromProduct (ls : List (List Level)) : List Key := product ls
     columns, tuples in sorted order -/
 def groupbyApply (data : List (Row α)) (names : List Col) (fn : List α → β) : List (Key × β) :=
   grouped (fun r => names.map (colVal r)) fn data
+
+/-- the model's stand-in for a MISSING feature value (`None` / NaN): a distinguished level that no generated level equals -/
+def naLevel : Level := "\x00"
+
+/-- an index tuple with a missing component -/
+def keyHasNa (k : Key) : Bool := k.contains naLevel
+
+/-- `data.groupby(names, dropna=dropna).apply(fn, ...)`: with `dropna=True` (the pandas default) a row whose key contains a
+    missing value belongs to no group — it is filtered out BEFORE grouping (`np.unique(data[col])`, evaluated on the whole
+    frame, still sees it); the flag is `FrameSrc.groupby_dropna`, read from the call by `harness/lifters/frame.py` -/
+def groupbyApplyNa (dropna : Bool) (data : List (Row α)) (names : List Col) (fn : List α → β) : List (Key × β) :=
+  groupbyApply (if dropna then data.filter (fun r => !keyHasNa (names.map (colVal r))) else data) names fn
+
+/-- "no missing feature value" (the quantifier of C01 / the generators: every feature value is an observed value) -/
+def NoMissing (rows : List (Row α)) : Prop := ∀ r ∈ rows, naLevel ∉ r.cf ∧ naLevel ∉ r.sf
+
+instance (rows : List (Row α)) : Decidable (NoMissing rows) := by
+  unfold NoMissing; exact List.decidableBAll _ rows
 
 /-- `fn(data)` on the whole frame: a result without index (empty key) -/
 def ungrouped (data : List (Row α)) (fn : List α → β) : List (Key × β) := [([], fn (slice data))]
